@@ -201,6 +201,10 @@ class Gen:
             elif c < 0.82:
                 ops.append("now")
                 self.count("op:now")
+            elif c < (0.87 if focus == "C19" else 0.835):
+                self.defers = getattr(self, "defers", 1000000) + 1
+                ops.append("defer %d" % self.defers)
+                self.count("op:defer")
             else:
                 t = self.run_instant(cur, hint[-6:])
                 ops.append("run %d" % t)
@@ -246,6 +250,20 @@ def parse_cases(text):
     return cases
 
 
+XLINES = {}   # id(result list) -> {op index: "X d5@.. t3@.." full execution order of that run (real driver only)}
+
+
+def order_clause_ok(xline):
+    """C19, last clause: timer callbacks of a run execute after the calls already queued when run was called
+    (deferred calls 'd' in submission order = increasing id, then timer callbacks 't')."""
+    items = xline.split()[1:]
+    kinds = [it[0] for it in items]
+    if "d" in kinds and "t" in kinds and kinds.index("t") < len(kinds) - 1 - kinds[::-1].index("d"):
+        return False
+    dids = [int(it[1:].split("@")[0]) for it in items if it[0] == "d"]
+    return dids == sorted(dids)
+
+
 def parse_results(out):
     """driver output -> {case name: [(result line, state line or None), ...]}"""
     res, cur = {}, None
@@ -268,6 +286,9 @@ def parse_results(out):
                 st = None
                 if i < len(lines) and lines[i].startswith("S "):
                     st = lines[i].strip()
+                    i += 1
+                if i < len(lines) and lines[i].startswith("X"):
+                    XLINES.setdefault(id(cur), {})[len(cur)] = lines[i].strip()
                     i += 1
                 cur.append((ln, st))
     return res
@@ -333,6 +354,9 @@ def evaluate(cases, real, model, verd, outcome, tag):
             if r[0] == "PANIC":
                 outcome.panics += 1
             sig.append(op.split()[0] + ":" + r[0].split()[0] + (str(len(r[0].split())) if r[0].startswith("F") else ""))
+            x = XLINES.get(id(rr), {}).get(j)
+            if x and not order_clause_ok(x):
+                outcome.monfail.setdefault("c19", []).append((tag + ":" + name, j))
             v = vv[j] if j < len(vv) else None
             if v:
                 for bit, val in v.items():
